@@ -1191,8 +1191,23 @@ def set_method(I, st, ref, name):
     def copy(I, st, a, k):
         yield st, st.alloc(SetE(S(st)))
 
+    def symmetric_difference(I, st, a, k):
+        # s.symmetric_difference(other): elements in exactly one of the two (exactly one argument; concrete keys only)
+        if len(a) != 1 or k:
+            raise Unsupported("set.symmetric_difference takes exactly one argument")
+        mine = list(S(st))
+        other = []
+        for x in I.iterate(a[0], st):
+            x = I.hashable(x)
+            if x not in other:
+                other.append(x)
+        if any(is_z3(x) for x in mine + other) or st.get(ref).kind == "numset":
+            raise Unsupported("set.symmetric_difference over symbolic elements")
+        yield st, st.alloc(SetE([x for x in mine if x not in other] + [x for x in other if x not in mine]))
+
     tbl = dict(add=add, discard=discard, remove=remove, update=update, union=union, intersection=intersection,
-               difference=difference, difference_update=difference_update, issubset=issubset, copy=copy)
+               difference=difference, difference_update=difference_update, issubset=issubset, copy=copy,
+               symmetric_difference=symmetric_difference)
     if name not in tbl:
         raise Unsupported("set method " + name)
     return bi("set." + name, tbl[name])
